@@ -56,6 +56,10 @@ CLAIMED = {
             'exploration: held on ~3.4x10^4 paired queries per quick run with generators biased to where the bounds are tight (deep starts, shallow/steep/overturned dips, short thick slabs, negative truncations, high latitudes, dateline, points around the buffered box and cut-off)',
             'the models\' own min/max pre-tests (about 40 copies) are not hooked; a difference is excused only if both worlds agree 1e-9 (relative) above and below the query depth and the two sides differ',
             'DESIGN.md section 4, C07'),
+    'C08': ('runtime monitoring: metamorphic monitor - a world and its rigidly moved copy (every coordinate-valued entry transformed, query moved with it) answered in one process; tolerance comparison with the margin rule (ASan+UBSan build)',
+            'exploration: held on ~1.8x10^4 paired queries per quick run (all feature and model types, curved trenches, sections, depth surfaces, ridges; any rotation/translation up to 1e7 m; longitude offsets moving footprints across the date line, incl. +-360)',
+            'tolerances sit one order above the measured noise floor of the trench closest-point solver (relative 1e-8): 1e-6 K + 1e-7 relative, 1e-7 for compositions/grains; plume azimuth ties (exactly 180 degrees apart) are avoided; velocity is not compared',
+            'DESIGN.md section 4, C08'),
 }
 
 PENDING_REASON = 'check not built yet (work in progress; see DESIGN.md section 9)'
